@@ -9,5 +9,6 @@ sys.path.insert(0, os.getcwd())
 from vlib import core, setup_list
 core.build_all(setup_list.CFGS, setup_list.BINS, jobs=6)
 core.build_all(setup_list.FEAT_CFGS, setup_list.FEAT_BINS, jobs=3)
+core.build_all(setup_list.ASSERT_CFGS, setup_list.ASSERT_BINS, jobs=2)
 print("setup ok")
 PY
